@@ -162,6 +162,10 @@ PROBES = [
     [('dml', 'kw', False), ('case', 'case', False), ('when', 'kw', False), ('name', 'other', False), ('end', 'end', False),
      ('semi', 'semi', True), ('if', 'if', False), ('name', 'other', False), ('semi', 'semi', True),
      ('name', 'other', False), ('semi', 'semi', True)],
+    # CREATE TABLE IF NOT EXISTS t; DROP ... ; SELECT ... FOR UPDATE;   (IF / FOR outside a body must stay neutral)
+    [('create', 'create', False), ('kw', 'kw', False), ('if', 'if', False), ('kw', 'kw', False), ('name', 'other', False),
+     ('semi', 'semi', True), ('name', 'other', False), ('semi', 'semi', True), ('dml', 'kw', False), ('for', 'for', False),
+     ('kw', 'kw', False), ('semi', 'semi', True), ('name', 'other', False), ('semi', 'semi', True)],
 ]
 
 
